@@ -32,7 +32,6 @@ import (
 	"github.com/uber/kraken/lib/store"
 	"github.com/uber/kraken/lib/store/base"
 	"github.com/uber/kraken/lib/store/metadata"
-	"github.com/uber/kraken/utils/diskspaceutil"
 
 	"kverif/kit"
 	sos "kverif/shim/os"
@@ -88,7 +87,7 @@ type world struct {
 	byName   map[string]*fileRec
 	ops      []*opRec
 	cfg      store.CleanupConfig
-	mode     int // 0 normal, 1 threshold never reached, 2 aggressive TTL, 3 usage-driven policy
+	base     uint64 // bytes of the virtual disk used by others
 	evict    bool
 	tCreate  time.Duration
 	period   time.Duration // interval + the simulator's per-timer offset of the cache ticker
@@ -342,7 +341,36 @@ func mustPrecede(a, b rank) bool {
 	return a.lat.Before(b.lat)
 }
 
-func (w *world) judgePass(k int, tk time.Duration, before []snapRec, opLogStart int, usage diskspaceutil.UsageInfo, usageErr error) {
+// Virtual disk (simulator seam behind utils/diskspaceutil.Usage): a fixed
+// total, used = a drawn base + the bytes of the data files currently in the
+// cache directory, so that deleting files lowers the utilisation.
+const vTotal = 10000
+
+func (w *world) usedNow() uint64 {
+	u := w.base
+	for _, f := range w.files {
+		if fi, err := os.Stat(f.data()); err == nil {
+			u += uint64(fi.Size())
+		}
+	}
+	if u > vTotal {
+		u = vTotal
+	}
+	return u
+}
+
+func (w *world) usage() (simrt.DiskUsage, error) {
+	u := w.usedNow()
+	return simrt.DiskUsage{Util: int(u * 100 / vTotal), Total: vTotal, Used: u, Free: vTotal - u}, nil
+}
+
+const (
+	passNormal = iota
+	passAggroTTL
+	passUsage
+)
+
+func (w *world) judgePass(k int, tk time.Duration, before []snapRec, opLogStart int) {
 	s := w.s
 	now := s.StartTime().Add(tk)
 	over := w.touchedBetween(tk-minute, tk+minute)
@@ -351,111 +379,99 @@ func (w *world) judgePass(k int, tk time.Duration, before []snapRec, opLogStart 
 		s.Probe("pass_with_overlapping_op")
 	}
 	s.Probe("pass_judged")
-	usageDriven := w.mode == 3
-	var totalSize int64
-	for _, b := range before {
-		if b.exists {
-			totalSize += b.size
-		}
-	}
-	if usageDriven {
-		// byte target of the specification: bring usage down to the lower
-		// threshold. On the real file system it is far beyond the few bytes
-		// of the store: every deletable file must go. Otherwise not judged.
-		if usageErr != nil {
-			s.Probe("usage_unavailable")
-			return
-		}
-		target := int64(usage.UsedBytes) - int64(usage.TotalBytes/100*uint64(w.cfg.AggressiveLowerThreshold))
-		if usage.Util < w.cfg.AggressiveThreshold+2 || target < 1<<20 || target < 100*totalSize {
-			s.Probe("usage_target_not_clear")
-			return
-		}
-		s.Probe("usage_driven_pass")
-	}
-	ttl := w.cfg.TTL
-	if w.mode == 2 {
-		ttl = w.cfg.AggressiveTTL
-	}
+
+	// ---- persisted files stay, whatever the mode ----
 	removed := map[int]bool{}
 	for i, b := range before {
-		f := w.files[i]
-		if !b.exists {
+		if !b.exists || over[i] {
 			continue
 		}
-		if over[i] {
-			s.Probe("file_excluded_overlap")
-			continue
-		}
-		cur := exists(f.data())
-		if !cur {
+		if !exists(w.files[i].data()) {
 			removed[i] = true
-		}
-		if b.persist {
-			if !cur {
+			if b.persist {
 				s.Fail("persisted_file_missing", "pass %d at %v removed f%d whose persist flag was set", k, tk, i)
 			}
+		} else if b.persist {
 			s.Probe("persisted_survived_pass")
-			continue
 		}
-		var exp bool
-		var why string
-		if usageDriven {
-			exp = b.latOK
-			why = "usage-driven pass with unreachable byte target"
-		} else {
+	}
+
+	// ---- which kind of pass was this? (virtual utilisation just before it) ----
+	usedMin, usedMax := int64(w.base), int64(w.base)
+	for i, b := range before {
+		switch {
+		case over[i]: // may have been created / deleted meanwhile
+			usedMax += int64(len(w.files[i].content))
+		case b.exists:
+			usedMin += b.size
+			usedMax += b.size
+		}
+	}
+	mode := passNormal
+	if T := int64(w.cfg.AggressiveThreshold); T != 0 {
+		// the threshold itself is kept off: at equality either reading is accepted
+		lo, hi := usedMin*100/vTotal, usedMax*100/vTotal
+		switch {
+		case usedMax > vTotal: // clamped: the utilisation is not a simple sum
+			s.Probe("pass_mode_ambiguous")
+			return
+		case lo > T:
+			mode = passAggroTTL
+			if w.cfg.AggressiveLowerThreshold != 0 {
+				mode = passUsage
+			}
+		case hi < T:
+		default:
+			s.Probe("pass_mode_ambiguous")
+			return
+		}
+	}
+
+	switch mode {
+	case passNormal, passAggroTTL:
+		ttl := w.cfg.TTL
+		if mode == passAggroTTL {
+			ttl = w.cfg.AggressiveTTL
+			s.Probe("aggressive_ttl_pass")
+		}
+		for i, b := range before {
+			if !b.exists || over[i] || b.persist {
+				if b.exists && over[i] {
+					s.Probe("file_excluded_overlap")
+				}
+				continue
+			}
+			cur := !removed[i]
 			expired := ttl > 0 && now.Sub(b.mtime) > ttl
 			idle := b.latOK && now.Sub(b.lat) > w.cfg.TTI
-			exp = expired || idle
-			why = fmt.Sprintf("age %v (ttl %v), idle %v (tti %v)", now.Sub(b.mtime), ttl, now.Sub(b.lat), w.cfg.TTI)
-		}
-		switch {
-		case exp && cur:
-			if w.evict && anyOver {
-				s.Probe("skip_eviction_blur")
-				continue
-			}
-			s.Fail("idle_file_survived_cleanup", "pass %d at %v (mode %d) left f%d on disk: %s", k, tk, w.mode, i, why)
-		case exp && !cur:
-			s.Probe("idle_removed")
-		case !exp && !cur:
-			if w.evict {
-				s.Probe("maybe_evicted")
-				continue
-			}
-			s.Fail("live_file_removed_by_cleanup", "pass %d at %v (mode %d) removed f%d which is neither idle nor expired: %s", k, tk, w.mode, i, why)
-		default:
-			s.Probe("live_kept")
-		}
-	}
-	if usageDriven && !w.evict {
-		// order of deletion as performed on disk
-		var seq []int
-		for _, l := range s.Disk().OpLog[opLogStart:] {
-			p := strings.SplitN(l, " ", 3)
-			if len(p) != 3 || p[1] != "remove" || filepath.Base(p[2]) != base.DefaultDataFileName {
-				continue
-			}
-			f := w.byName[filepath.Base(filepath.Dir(p[2]))]
-			if f == nil || filepath.Dir(filepath.Clean(p[2])) != f.dir || over[f.idx] || !before[f.idx].exists || !before[f.idx].latOK {
-				continue
-			}
-			seq = append(seq, f.idx)
-		}
-		for a := 0; a < len(seq); a++ {
-			for b := a + 1; b < len(seq); b++ {
-				ra, rb := rankOf(before[seq[a]]), rankOf(before[seq[b]])
-				if mustPrecede(rb, ra) {
-					s.Fail("usage_policy_order", "pass %d at %v deleted f%d (served=%v last access %v) before f%d (served=%v last access %v)",
-						k, tk, seq[a], ra.served, ra.lat.Sub(s.StartTime()), seq[b], rb.served, rb.lat.Sub(s.StartTime()))
+			exp := expired || idle
+			why := fmt.Sprintf("age %v (ttl %v), idle %v (tti %v)", now.Sub(b.mtime), ttl, now.Sub(b.lat), w.cfg.TTI)
+			switch {
+			case exp && cur:
+				if w.evict && anyOver {
+					s.Probe("skip_eviction_blur")
+					continue
 				}
+				s.Fail("idle_file_survived_cleanup", "pass %d at %v (mode %d) left f%d on disk: %s", k, tk, mode, i, why)
+			case exp && !cur:
+				s.Probe("idle_removed")
+			case !exp && !cur:
+				if w.evict {
+					s.Probe("maybe_evicted")
+					continue
+				}
+				s.Fail("live_file_removed_by_cleanup", "pass %d at %v (mode %d) removed f%d which is neither idle nor expired: %s", k, tk, mode, i, why)
+			default:
+				s.Probe("live_kept")
 			}
 		}
-		if len(seq) >= 2 {
-			s.Probe("usage_order_checked")
+	case passUsage:
+		s.Probe("usage_driven_pass")
+		if !w.evict {
+			w.judgeUsagePass(k, tk, before, opLogStart, over, removed, usedMin)
 		}
 	}
-	h := uint64(w.mode)
+	h := uint64(mode)
 	for i := range before {
 		h = h*31 + uint64(i)
 		if before[i].exists {
@@ -469,6 +485,116 @@ func (w *world) judgePass(k int, tk time.Duration, before []snapRec, opLogStart 
 		}
 	}
 	s.State(h)
+}
+
+// judgeUsagePass: the usage-driven policy. Statement / documented intent
+// (CleanupConfig.AggressiveLowerThreshold: "the lower disk util threshold in
+// percent, below which aggressive cleanup will stop"; cleanup(): "the cache is
+// cleaned until the lower threshold is reached, prioritizing blobs ... based
+// on the customPolicy"): files go in policy order until the bytes above the
+// lower threshold have been freed; persisted files never go.
+func (w *world) judgeUsagePass(k int, tk time.Duration, before []snapRec, opLogStart int, over, removed map[int]bool, used int64) {
+	s := w.s
+	anyOver := len(over) > 0
+	deletable := func(i int) bool {
+		b := before[i]
+		return b.exists && !over[i] && !b.persist && b.latOK
+	}
+	// order of deletion as performed on disk
+	var seq []int
+	for _, l := range s.Disk().OpLog[opLogStart:] {
+		p := strings.SplitN(l, " ", 3)
+		if len(p) != 3 || p[1] != "remove" || filepath.Base(p[2]) != base.DefaultDataFileName {
+			continue
+		}
+		f := w.byName[filepath.Base(filepath.Dir(p[2]))]
+		if f == nil || filepath.Dir(filepath.Clean(p[2])) != f.dir || !deletable(f.idx) {
+			continue
+		}
+		seq = append(seq, f.idx)
+	}
+	for i := range before {
+		if removed[i] && before[i].exists && !over[i] && !before[i].persist && !before[i].latOK {
+			s.Probe("removed_without_lat")
+		}
+	}
+	desc := func(i int) string {
+		r := rankOf(before[i])
+		return fmt.Sprintf("f%d (served=%v last access %v, %d bytes)", i, r.served, r.lat.Sub(s.StartTime()), before[i].size)
+	}
+	// 1. order among the deleted
+	for a := 0; a < len(seq); a++ {
+		for b := a + 1; b < len(seq); b++ {
+			if mustPrecede(rankOf(before[seq[b]]), rankOf(before[seq[a]])) {
+				s.Fail("usage_policy_order", "pass %d at %v deleted %s before %s", k, tk, desc(seq[a]), desc(seq[b]))
+			}
+		}
+	}
+	// 2. the deleted files are a prefix of the policy order: nothing that had
+	// to go earlier was kept
+	for i := range before {
+		if !deletable(i) || removed[i] {
+			continue
+		}
+		for _, d := range seq {
+			if mustPrecede(rankOf(before[i]), rankOf(before[d])) {
+				s.Fail("usage_policy_prefix", "pass %d at %v kept %s but deleted %s", k, tk, desc(i), desc(d))
+			}
+		}
+	}
+	if len(seq) >= 2 {
+		s.Probe("usage_order_checked")
+	}
+	// 3. where deletion stops (only when nothing else touched the store
+	// between the two snapshots)
+	if anyOver {
+		s.Probe("usage_stop_not_judged_overlap")
+		return
+	}
+	need := used - int64(w.cfg.AggressiveLowerThreshold)*vTotal/100
+	var freed int64
+	for _, d := range seq {
+		freed += before[d].size
+	}
+	left := 0
+	for i := range before {
+		if deletable(i) && !removed[i] {
+			left++
+		}
+	}
+	s.Probe("usage_stop_judged")
+	var deletableBytes int64
+	for i := range before {
+		if deletable(i) {
+			deletableBytes += before[i].size
+		}
+	}
+	if need > deletableBytes {
+		s.Probe("usage_target_unreachable")
+	} else {
+		s.Probe("usage_target_reachable")
+	}
+	if left > 0 {
+		s.Probe("usage_stop_with_files_left")
+	}
+	// not earlier (one percent of the disk of slack for implementations that
+	// compare utilisation percentages)
+	// NOTE: where usage-driven deletion stops is NOT part of the C10 statement
+	// (it only orders the deletions), so the two stop rules are reach probes,
+	// not verdicts. On the pinned tree cleanup.go computes the byte target from
+	// TotalBytes instead of UsedBytes and always deletes everything deletable
+	// (DESIGN.md §11, observations; patch in proposed_fix_1.diff).
+	if left > 0 && freed < need-vTotal/100 {
+		s.Probe("usage_cleanup_stopped_early")
+		s.Logf("probe usage_cleanup_stopped_early: pass %d at %v: used %d of %d bytes, lower threshold %d%% asks to free %d bytes, only %d freed although %d deletable files remain",
+			k, tk, used, vTotal, w.cfg.AggressiveLowerThreshold, need, freed, left)
+	}
+	// not later: before the last deletion the target must not have been met yet
+	if len(seq) > 0 && freed-before[seq[len(seq)-1]].size >= need {
+		s.Probe("usage_cleanup_overshoot")
+		s.Logf("probe usage_cleanup_overshoot: pass %d at %v: used %d of %d bytes, lower threshold %d%% asks to free %d bytes; %d files / %d bytes were deleted, the target was already met before the last one (%s)",
+			k, tk, used, vTotal, w.cfg.AggressiveLowerThreshold, need, len(seq), freed, desc(seq[len(seq)-1]))
+	}
 }
 
 func grid(units, off int) time.Duration {
@@ -510,31 +636,44 @@ func periodic(s *simrt.Sim, tier string) {
 	if tp.Chance(800) {
 		cfg.TTL = grid(1+tp.Draw(24), 0) + 5*minute
 	}
-	w.mode = tp.Draw(4)
-	usage0, uerr := diskspaceutil.Usage()
-	if w.mode != 0 && (uerr != nil || usage0.Util < 6 || usage0.Util > 97) {
-		s.Probe("env_util_out_of_range")
-		w.mode = 0
-	}
-	switch w.mode {
-	case 1:
-		cfg.AggressiveThreshold = 100 // never reached
-		cfg.AggressiveTTL = grid(tp.Draw(3), 0) + 5*minute
-		cfg.AggressiveLowerThreshold = tp.Draw(2) * 50
-	case 2:
-		cfg.AggressiveThreshold = 1
+	// aggressive modes on a virtual disk (see usage)
+	w.base = uint64(tp.Draw(90)) * 100
+	if tp.Draw(4) != 0 {
+		T := 1 + tp.Draw(95)
+		cfg.AggressiveThreshold = T
 		cfg.AggressiveTTL = grid(tp.Draw(6), 0) + 5*minute
-	case 3:
-		cfg.AggressiveThreshold = 2
-		cfg.AggressiveLowerThreshold = 1
-		cfg.AggressiveTTL = grid(tp.Draw(6), 0) + 5*minute
+		if T > 1 && tp.Chance(650) {
+			cfg.AggressiveLowerThreshold = 1 + tp.Draw(T-1) // below the trigger threshold
+		}
+		if tp.Chance(500) {
+			// utilisation near the trigger: files decide whether it is reached
+			if b := T*100 - tp.Draw(30)*100; b >= 0 {
+				w.base = uint64(b)
+			}
+		}
+		if cfg.AggressiveLowerThreshold != 0 && tp.Chance(850) {
+			// make the byte target fall inside what the files hold (about 250
+			// bytes each): lower threshold a few percent below the trigger,
+			// the others use a little less than the lower threshold, so that
+			// the target is "the files' bytes minus a little"
+			gap := 1 + tp.Draw(4)
+			if gap > T-1 {
+				gap = T - 1
+			}
+			L := T - gap
+			cfg.AggressiveLowerThreshold = L
+			if b := L*100 - tp.Draw(1+nFiles*200); b >= 0 {
+				w.base = uint64(b)
+			}
+		}
 	}
+	s.Disk().UsageFn = w.usage
 	w.cfg = cfg
 	upCfg := store.CleanupConfig{Disabled: true}
 	if tp.Chance(300) {
 		upCfg = cfg
 	}
-	s.Disk().OpLogOn = w.mode == 3
+	s.Disk().OpLogOn = cfg.AggressiveLowerThreshold != 0
 
 	w.tCreate = s.Now()
 	// The simulator gives every timer of simulated code a unique nanosecond
@@ -563,7 +702,7 @@ func periodic(s *simrt.Sim, tier string) {
 
 	// ---- files with drawn ages, access times, persist flags ----
 	for i := 0; i < nFiles; i++ {
-		content := append([]byte{byte(i), 'c', '1', '0'}, kit.Bytes(s, 1+tp.Draw(40))...)
+		content := append([]byte{byte(i), 'c', '1', '0'}, kit.Bytes(s, 50+tp.Draw(400))...)
 		f := &fileRec{idx: i, content: content, name: kit.SHA(content)}
 		w.files = append(w.files, f)
 		w.byName[f.name] = f
@@ -664,13 +803,8 @@ func periodic(s *simrt.Sim, tier string) {
 		w.checkProtected("before pass")
 		before := w.snapshot()
 		mark := len(s.Disk().OpLog)
-		var usage diskspaceutil.UsageInfo
-		var usageErr error
-		if w.mode == 3 {
-			usage, usageErr = diskspaceutil.Usage()
-		}
 		w.sleepUntil(tk + minute)
-		w.judgePass(k, tk, before, mark, usage, usageErr)
+		w.judgePass(k, tk, before, mark)
 		w.checkProtected("after pass")
 		passes++
 		if done == nTasks {
@@ -685,7 +819,7 @@ func periodic(s *simrt.Sim, tier string) {
 	}
 	wg.Wait()
 	kit.SetSample(map[string]any{"store": map[bool]string{true: "SimpleStore", false: "CAStore"}[simple], "capacity": capacity, "files": nFiles,
-		"cleanup": fmt.Sprintf("%+v", cfg), "mode": w.mode, "tasks": nTasks, "ops_per_task": nOps, "ops": len(w.ops), "passes": passes})
+		"cleanup": fmt.Sprintf("%+v", cfg), "virtual_disk": fmt.Sprintf("total %d, others %d", vTotal, w.base), "tasks": nTasks, "ops_per_task": nOps, "ops": len(w.ops), "passes": passes})
 }
 
 func TestC10(t *testing.T) {
@@ -695,12 +829,13 @@ func TestC10(t *testing.T) {
 		Config: func(tier string) simrt.Config {
 			return simrt.Config{MaxSteps: 1_500_000, Horizon: 30 * 24 * time.Hour, PanicIsFailure: true}
 		},
-		Real: []string{"lib/store.CAStore", "lib/store.SimpleStore", "lib/store cleanupManager (as started by the constructors)", "lib/store/base FileOp, localFileEntry, lruFileMap, CAS/local entry factories", "lib/store/metadata Persist, LastAccessTime", "utils/diskspaceutil (real file system usage)"},
+		Real: []string{"lib/store.CAStore", "lib/store.SimpleStore", "lib/store cleanupManager (as started by the constructors)", "lib/store/base FileOp, localFileEntry, lruFileMap, CAS/local entry factories", "lib/store/metadata Persist, LastAccessTime", "utils/diskspaceutil.Usage call sites (answered by a virtual disk through the simulator seam)"},
 		Stub: []string{"tally.NoopScope", "workload and auditor tasks (harness)"},
 		Rule: "one run = one store (CAStore with small or large file-map capacity | SimpleStore) with tape-drawn CleanupConfig (interval, TTI, TTL, aggressive mode), <=12 files with drawn ages / access times / persist flags, 1-3 tasks issuing read/stat/persist/unpersist/delete/create at grid instants (some exactly at cleanup ticks), idle gaps of several intervals; non-trivial = >=1 contested scheduling decision; distinct = distinct event-log hash",
 		Assumptions: []string{
 			"all instants on a minute grid that keeps 'now - recorded time' off every limit",
-			"usage-driven and aggressive modes are driven by the real file system usage (thresholds 1/2/100 percent): the byte target is unreachable, so only order and completeness of the usage-driven policy are judged, not where deletion stops",
+			"disk utilisation is virtual: total 10000 bytes, used = drawn base + bytes of the data files in the cache directory; the pass kind is decided from the utilisation just before the pass, passes whose utilisation equals the trigger threshold (or is blurred by concurrent operations) are not judged",
+			"where usage-driven deletion stops is judged only for passes with no other operation between the two snapshots and a file map that cannot evict; 1% of the disk of slack on the early side",
 			"exact-set oracle only where the file map cannot evict (capacity > files); with a small map only 'persisted stay' and 'idle go' are asserted",
 		},
 	})
